@@ -9,7 +9,7 @@ from __future__ import annotations
 
 import ast
 
-from .interp import (Interp, AnalysisAbort, PyRaise, Obj, Marker, NDARRAY, NUMBER, ExtModule, BT, Opaque, TypeFn)
+from .interp import (Interp, AnalysisAbort, PyRaise, Obj, Marker, NDARRAY, NUMBER, ExtModule, BT, Opaque, TypeFn, PyModel)
 from . import symnum as S
 from .symnum import SArr, Rat, rat, fsym, SymAbort
 from .npmodel import NumpyRaise, ModelAbort
@@ -64,6 +64,15 @@ class Flags:
     @property
     def forc(self):
         return self.c_contiguous or self.f_contiguous
+
+
+class FInfo(PyModel):
+    """np.finfo(float): the machine epsilon is an infinitesimal positive number of the exact domain (smaller than every generic
+    quantity, larger than its own square); nothing else of it is modelled"""
+    def __getattr__(self, name):
+        if name == "eps":
+            return Rat.sym("eps", "pos")
+        raise AnalysisAbort(f"np.finfo(...).{name} is not modelled")
 
 
 def _prod(shape):
@@ -203,6 +212,17 @@ class SymInterp(Interp):
             return name == "ge"
         if sg == "nonpos" and name in ("gt", "le"):
             return name == "le"
+        if sg not in ("pos", "neg") and (d.symbols() & S.INFINITESIMAL):
+            # terms of different infinitesimal order: the sign is that of the lowest-order part (generic coefficients are not zero)
+            lead = S.eps_lowest(d)
+            if lead is not None:
+                ls = lead.sign()
+                if ls in ("nonneg", "nonpos"):
+                    self.generic_notes.append(f"generic magnitude: the sign of {str(d)[:80]} is taken from its lowest-order part")
+                ls = {"nonneg": "pos", "nonpos": "neg"}.get(ls, ls)
+                if ls in ("pos", "neg"):
+                    pos_ = ls == "pos"
+                    return {"lt": not pos_, "le": not pos_, "gt": pos_, "ge": pos_, "eq": False, "ne": True}[name]
         # magnitude of a generic symbolic quantity against a positive literal threshold (|x| < 1e-10 style guards)
         if b.is_const() and b.const() > 0 and a.sign() in ("nonneg", "pos") and not a.is_const():
             self.generic_notes.append(f"generic magnitude: {a!r} {name} {b!r} decided as for a value that is not negligible")
@@ -417,6 +437,15 @@ class SymInterp(Interp):
             return vals[0]
         if all(v.is_const() for v in vals):
             return rat((max if name == "max" else min)(v.const() for v in vals))
+        if name == "max" and all(v.sign() in ("pos", "nonneg", "zero") for v in vals) and any(v.symbols() & S.INFINITESIMAL for v in vals):
+            # magnitudes of different infinitesimal order: the largest is among those of the lowest order; a common factor eps^k
+            # is taken out (generic values: the coefficients are not exactly zero)
+            facs = [S.eps_factor(v) for v in vals if not v.is_zero()]
+            if facs and all(f is not None for f in facs):
+                k = min(f[0] for f in facs)
+                low = [r for kk, r in facs if kk == k]
+                self.generic_notes.append("np.max over magnitudes of different infinitesimal order keeps those of the lowest order")
+                return S.eps_power(k) * self.np_minmax("max", SArr((len(low),), low))
         # an extremum that the declared signs decide: v0 with (w - v0) >= 0 for every other w (min) / <= 0 (max)
         for v0 in vals:
             good = ("pos", "nonneg", "zero") if name == "min" else ("neg", "nonpos", "zero")
@@ -438,6 +467,9 @@ class SymInterp(Interp):
                             return x
                         if sg in ("neg", "nonpos"):
                             return -x
+                        k, rest = S.eps_factor(x)
+                        if k:           # |eps^k y| = eps^k |y| (eps is positive)
+                            return S.eps_power(k) * fsym("abs", rest)
                     if x.is_const() and _n == "sqrt" and x.const() in (0, 1):
                         return x
                     if x.is_const() and _n == "exp" and x.const() == 0:
@@ -810,8 +842,33 @@ class SymInterp(Interp):
             return lambda a: S.elementwise(lambda x: rat(0 if (isinstance(x, Rat) and ({"nan", "inf"} & set(x.symbols()))) else 1), a)
         if name == "reshape":
             return lambda a, shape, **k: I.sarr_attr(S.asarr(a), "reshape", None)(shape)
-        if name in ("minimum", "maximum", "clip", "where"):
-            return lambda *a: S.elementwise(lambda *xs: fsym(name, *xs), *a)
+        if name == "where":
+            def where(c, a=None, b=None):
+                if a is None or b is None:
+                    raise AnalysisAbort("np.where with one argument")
+
+                def one(cc, x, y):
+                    cc, x, y = rat(cc), rat(x), rat(y)
+                    if cc.is_const():
+                        return x if cc.const() != 0 else y
+                    if x == y:
+                        return x
+                    return fsym("where", cc, x, y)
+                return S.elementwise(one, c, a, b)
+            return where
+        if name in ("minimum", "maximum"):
+            def minmax2(a, b, _n=name[:3]):
+                return S.elementwise(lambda x, y: I.np_minmax(_n, SArr((2,), [rat(x), rat(y)])), a, b)
+            return minmax2
+        if name == "clip":
+            def clip(x, lo, hi):
+                def one(v, l, h):
+                    v = I.np_minmax("max", SArr((2,), [rat(v), rat(l)])) if l is not None else rat(v)
+                    return I.np_minmax("min", SArr((2,), [v, rat(h)])) if h is not None else v
+                if lo is None or hi is None:
+                    raise AnalysisAbort("np.clip with an open bound")
+                return S.elementwise(one, x, lo, hi)
+            return clip
         if name == "prod":
             def prod(t, **kw):
                 r = 1
@@ -822,7 +879,7 @@ class SymInterp(Interp):
         if name == "shape":
             return lambda a: S.asarr(a).shape
         if name == "finfo":
-            return lambda dt: Opaque("finfo")
+            return lambda dt=None: FInfo()
         if name in ("float64", "float32", "int8", "int16", "int32", "int64", "intp", "uint8", "uint16", "uint32", "object_", "bool_"):
             return DType("np." + name)
         if name == "flip":
